@@ -743,9 +743,96 @@ class Inliner:
 
     def tx_block(self, sts, stack, fn):
         out = []
-        for s in sts:
+        for i, s in enumerate(sts):
+            g = self.scope_guard(s)
+            if g is not None:
+                rest = self.guarded_rest(list(sts[i + 1:]), g)
+                if rest is not None:
+                    self.guards_desugared = getattr(self, "guards_desugared", 0) + 1
+                    out.extend(self.tx_block(rest, stack, fn))
+                    return out
             out.extend(self.tx_stmt(s, stack, fn))
         return out
+
+    # ---- N7 scope guards
+    def scope_guard(self, s):
+        """`Guard g(lambda);` where ~Guard() does nothing but call the stored callable: (params, body) of the lambda, else None.
+        The lambda's body is what runs when the enclosing block is left."""
+        if not isinstance(s, dict) or s.get("k") != "Decl" or len(s.get("vars", [])) != 1:
+            return None
+        init = s["vars"][0].get("init")
+        init = unwrap(init) if init is not None else None
+        if not (isinstance(init, dict) and init.get("k") == "Construct" and not init.get("copymove") and len(init.get("args", [])) == 1):
+            return None
+        cal = init.get("callee") or {}
+        cls = cal.get("cls")
+        if not cls or not cal.get("inrepo"):
+            return None
+        dtors = [f for f in self.facts.functions.values() if f.get("cls") == cls and f.get("dtor") and f.get("body") is not None]
+        ctors = [f for f in self.facts.functions.values() if f.get("cls") == cls and f.get("ctor") and f.get("body") is not None]
+        if len(dtors) != 1 or not ctors:
+            return None
+        db = ir.stmts(dtors[0].get("body_raw", dtors[0]["body"]))
+        if len(db) != 1:
+            return None
+        c = unwrap(db[0])
+        if not (isinstance(c, dict) and c.get("k") == "OpCall" and c.get("op") == "()" and len(c.get("args", [])) == 1 and
+                (path(c["args"][0]) or ())[:1] == ("this",) and len(path(c["args"][0])) == 2):
+            return None
+        if any(ir.stmts(f.get("body_raw", f["body"])) for f in ctors):
+            return None                     # a constructor that does more than store the callable
+        a = unwrap(init["args"][0])
+        while isinstance(a, dict) and a.get("k") in ("Cast", "Construct") and (a.get("k") == "Cast" or a.get("copymove")):
+            a = unwrap(a.get("e") if a.get("k") == "Cast" else a["args"][0])
+        lam = None
+        if isinstance(a, dict) and a.get("k") == "Lambda":
+            lam = a
+        elif isinstance(a, dict) and a.get("k") == "Ref" and a.get("d") == "local" and a.get("id") in getattr(self, "_lambdas", {}):
+            lam = self._lambdas[a["id"]]
+            self._lambda_calls[a["id"]] = self._lambda_calls.get(a["id"], 0) + 1
+        if lam is None or lam.get("params") or lam.get("body") is None:
+            return None
+        return lam
+
+    def guarded_rest(self, rest, lam):
+        """The statements after the guard's declaration with the guard's action made explicit: at the end of the block and
+        in front of every return inside it.  (What the guard does when an exception leaves the block is not represented.)
+        None when the block is left in a way this rewriting does not cover."""
+        def cleanup():
+            body_i, _ = self.instantiate([], lam["body"], None)
+            return ir.stmts(body_i)
+        for x in rest:
+            for n in walk(x):
+                if n.get("k") in ("Break", "Continue"):
+                    return None
+                if n.get("k") == "Return" and n.get("e") is not None and not is_pure(n["e"], self.facts):
+                    return None
+
+        def ins(n):
+            if isinstance(n, list):
+                out = []
+                for y in n:
+                    if isinstance(y, dict) and y.get("k") == "Return":
+                        out.extend(cleanup())
+                        out.append(y)
+                    else:
+                        out.append(ins(y))
+                return out
+            if not isinstance(n, dict) or n.get("k") == "Lambda":
+                return n
+            m = {}
+            for key, v in n.items():
+                if key in ("then", "else", "body", "sub") and isinstance(v, dict) and v.get("k") == "Return":
+                    m[key] = {"k": "Block", "l": v.get("l"), "s": cleanup() + [v]}
+                elif isinstance(v, (dict, list)):
+                    m[key] = ins(v)
+                else:
+                    m[key] = v
+            return m
+        new = ins(rest)
+        if not (new and ir.always_leaves({"k": "Block", "s": new})):
+            new = new + cleanup()
+        return new
 
     def _wrap(self, s, sts):
         if len(sts) == 1 and sts[0].get("k") == "Block":
